@@ -187,4 +187,123 @@ example : intersectAll [[Value.null], [.int 1], [.int 1], [.null]] [[.int 1], [.
     exceptAll [[Value.null], [.int 1], [.int 1], [.null]] [[.int 1], [.null]] = [[.int 1], [.null]] := by
   decide
 
+/-! ### aggregates do not depend on the order in which the rows arrive -/
+
+theorem mapM'_perm {α β : Type} (f : α → Except Err β) {l₁ l₂ : List α} (h : l₁.Perm l₂) :
+    ∀ vs₁, mapM' f l₁ = .ok vs₁ → ∃ vs₂, mapM' f l₂ = .ok vs₂ ∧ vs₁.Perm vs₂ := by
+  induction h with
+  | nil => intro vs h; exact ⟨vs, h, List.Perm.refl _⟩
+  | cons x _ ih =>
+    intro vs h
+    simp only [mapM', bind, Except.bind, pure, Except.pure] at h ⊢
+    cases hx : f x with
+    | error e => simp [hx] at h
+    | ok y =>
+      simp only [hx] at h ⊢
+      rename_i l₁ l₂ _
+      cases hl : mapM' f l₁ with
+      | error e => simp [hl] at h
+      | ok ys =>
+        simp only [hl, Except.ok.injEq] at h
+        obtain ⟨ys₂, h2, hp⟩ := ih ys hl
+        exact ⟨y :: ys₂, by simp [h2], h ▸ List.Perm.cons y hp⟩
+  | swap x y l =>
+    intro vs h
+    simp only [mapM', bind, Except.bind, pure, Except.pure] at h ⊢
+    cases hx : f x with
+    | error e => cases hy : f y <;> simp [hx, hy] at h
+    | ok a =>
+      cases hy : f y with
+      | error e => simp [hx, hy] at h
+      | ok b =>
+        cases hl : mapM' f l with
+        | error e => simp [hx, hy, hl] at h
+        | ok ys =>
+          simp only [hx, hy, hl, Except.ok.injEq] at h ⊢
+          exact ⟨a :: b :: ys, rfl, h ▸ List.Perm.swap a b ys⟩
+  | trans _ _ ih1 ih2 =>
+    intro vs h
+    obtain ⟨v2, h2, p2⟩ := ih1 vs h
+    obtain ⟨v3, h3, p3⟩ := ih2 v2 h2
+    exact ⟨v3, h3, p2.trans p3⟩
+
+theorem sumInts_perm {l₁ l₂ : List Value} (h : l₁.Perm l₂) :
+    ∀ s, sumInts l₁ = .ok s → sumInts l₂ = .ok s := by
+  induction h with
+  | nil => intro s h; exact h
+  | cons x _ ih =>
+    intro s h
+    cases x <;> simp only [sumInts, bind, Except.bind, pure, Except.pure] at h ⊢ <;> try (simp at h)
+    rename_i l₁ l₂ _ i
+    cases hl : sumInts l₁ with
+    | error e => simp [hl] at h
+    | ok t => simp only [hl, Except.ok.injEq] at h; simp [ih t hl, h]
+  | swap x y l =>
+    intro s h
+    cases x <;> cases y <;> simp only [sumInts, bind, Except.bind, pure, Except.pure] at h ⊢ <;> try (simp at h)
+    cases hl : sumInts l with
+    | error e => simp [hl] at h
+    | ok t => simp only [hl, Except.ok.injEq] at h ⊢; omega
+  | trans _ _ ih1 ih2 => intro s h; exact ih2 s (ih1 s h)
+
+theorem dedup_perm {α : Type} [DecidableEq α] {l₁ l₂ : List α} (h : l₁.Perm l₂) : (dedup l₁).Perm (dedup l₂) := by
+  rw [List.perm_ext_iff_of_nodup (nodup_dedup _) (nodup_dedup _)]
+  intro a
+  rw [mem_dedup, mem_dedup]
+  exact h.mem_iff
+
+/-- COUNT(*), COUNT(e), SUM(e) and their DISTINCT forms are functions of the *multiset* of
+input rows: any reordering of the rows (scan order, index order, join order) gives the same
+value -/
+theorem C01_aggregate_order_independent (a : AggCall) (hfn : a.fn = .countStar ∨ a.fn = .count ∨ a.fn = .sum)
+    {rows₁ rows₂ : List Row} (h : rows₁.Perm rows₂) (v : Value) (h1 : evalAgg a rows₁ = .ok v) :
+    evalAgg a rows₂ = .ok v := by
+  unfold evalAgg at h1 ⊢
+  rcases hfn with hf | hf | hf
+  · simp only [hf] at h1 ⊢; rw [← h.length_eq]; exact h1
+  all_goals
+    simp only [hf, bind, Except.bind, pure, Except.pure] at h1 ⊢
+    cases hm : mapM' (fun r => a.arg.eval r) rows₁ with
+    | error e => simp [hm] at h1
+    | ok vs₁ =>
+      obtain ⟨vs₂, hm2, hp⟩ := mapM'_perm _ h vs₁ hm
+      simp only [hm, hm2] at h1 ⊢
+      have hnn := hp.filter (fun v => !v.isNull)
+      have hxs : (if a.distinct then dedup (vs₁.filter (fun v => !v.isNull)) else vs₁.filter (fun v => !v.isNull)).Perm
+          (if a.distinct then dedup (vs₂.filter (fun v => !v.isNull)) else vs₂.filter (fun v => !v.isNull)) := by
+        by_cases hd : a.distinct
+        · simp only [hd, if_true]; exact dedup_perm hnn
+        · simp only [hd]; exact hnn
+      first
+      | (rw [← hxs.length_eq]; exact h1)
+      | (have he := hxs.isEmpty_eq
+         generalize (if a.distinct = true then dedup (vs₁.filter (fun v => !v.isNull)) else vs₁.filter (fun v => !v.isNull)) = xs₁ at h1 hxs he
+         generalize (if a.distinct = true then dedup (vs₂.filter (fun v => !v.isNull)) else vs₂.filter (fun v => !v.isNull)) = xs₂ at hxs he
+         rw [← he]
+         by_cases hem : xs₁.isEmpty = true
+         · simpa [hem] using h1
+         · simp only [hem] at h1 ⊢
+           cases hs : sumInts xs₁ with
+           | error e => simp [hs] at h1
+           | ok t => rw [sumInts_perm hxs t hs]; simpa [hs] using h1)
+
+/-- ORDER BY neither loses nor duplicates rows -/
+theorem C01_order_by_perm (keys : List (Nat × Bool)) (rows : List Row) :
+    (orderRows keys rows).Perm rows := by
+  unfold orderRows
+  split
+  · exact List.Perm.refl _
+  · exact List.mergeSort_perm _ _
+
+/-- so a query's multiset is unchanged by adding or changing ORDER BY (without LIMIT) -/
+theorem C01_order_by_same_multiset (k₁ k₂ : List (Nat × Bool)) (rows : List Row) :
+    (orderRows k₁ rows).Perm (orderRows k₂ rows) :=
+  (C01_order_by_perm k₁ rows).trans (C01_order_by_perm k₂ rows).symm
+
+/-- non-vacuity: NULLs, duplicates, both orders -/
+example : evalAgg ⟨.sum, .col 0, true⟩ [[.int 2], [.null], [.int 2], [.int 5]] = .ok (.int 7) ∧
+    evalAgg ⟨.sum, .col 0, true⟩ [[.int 5], [.int 2], [.int 2], [.null]] = .ok (.int 7) ∧
+    evalAgg ⟨.count, .col 0, false⟩ [[.int 5], [.int 2], [.int 2], [.null]] = .ok (.int 3) := by
+  refine ⟨rfl, rfl, rfl⟩
+
 end VibeProof.C01
